@@ -232,17 +232,49 @@ def _run_own(tier, seed, build, res):
                          '\\LTinput{c09q.tex}\n\\xr{} B\n\\LTinput{c09r.tex}\n\\xr{} \\xs{C}',
                          'Alice A Dora B Alice (C)'),
                         ('\\newcommand{\\xb}[1][D]{<#1>}A \\xb', 'A <D>'),
+                        # a redefinition affects later uses only, also for detached text
+                        ('\\newcommand{\\xa}{one}A\\footnote{F \\xa{} G} \\renewcommand{\\xa}{two}'
+                         'B \\xa{} C', 'F one G'),
+                        ('A\\footnote{F \\xq{} G} \\newcommand{\\xq}{late} B \\xq{} C', 'F G'),
                         ('\\newcommand{\\xb}[1][D]{<#1>}\\textbf{A \\xb}\n', 'A <D>')):
         c = parsecase.T2T(latex, lang='en', pack='', files=dict(rfiles))
         im = parsecase.run_t2t(c)
         res.count('order', c.key())
+        mo = parsecase.parse_model_t2t(core.run_model([parsecase.model_line_t2t(c)])[0])
+        if project(im) != project(mo):
+            res.disagreements.append(('order', c.json(), repr(project(im))[:300],
+                                      repr(project(mo))[:300]))
         if im[0] != 'OK' or want not in norm(im[1][1]):
             res.failures.append(('c09-order:%r' % latex, c.json(),
                                  'expected %r in %r' % (want, im[1][1] if im[0] == 'OK' else im)))
 
 
+def nosp_route(res):
+    """the three routes with --nosp and the preamble line the documentation
+    recommends for real LaTeX runs (\\LTinput must stay the filter's macro)"""
+    universe.scratch_dir()
+    defs = '\\newcommand{\\rr}[1]{R(#1)}\n'
+    with open('c09n.tex', 'w') as f:
+        f.write(defs)
+    body = 'A \\rr{x} B\n'
+    for nosp in (False, True):
+        pre = '\\newcommand{\\LTinput}[1]{}\n'
+        c1 = parsecase.T2T(pre + '\\LTinput{c09n.tex}\n' + body, lang='en', pack='', nosp=nosp,
+                           files={'c09n.tex': defs})
+        c2 = parsecase.T2T(body, lang='en', pack='', nosp=nosp, defs=defs, files={})
+        r1, r2 = parsecase.run_t2t(c1), parsecase.run_t2t(c2)
+        res.count('nosp-route', c1.key())
+        t1 = norm(r1[1][1]) if r1[0] == 'OK' else repr(r1[:2])
+        t2 = norm(r2[1][1]) if r2[0] == 'OK' else repr(r2[:2])
+        if t1 != t2 or 'R(x)' not in t1:
+            res.failures.append(('c09-nosp:%r' % nosp, c1.json(),
+                                 'definitions read by \\LTinput give %r, with --defs %r '
+                                 '(nosp=%r)' % (t1, t2, nosp)))
+
+
 def run(tier, seed, build, res):
     _run_own(tier, seed, build, res)
+    nosp_route(res)
     # snippets of /repo's own tests and their mutations (harness/seeds.py)
     universe.run_seeds(random.Random(seed + 7), res, project, tier, share=0.6)
     universe.heading_finding('C09', res)
